@@ -4421,6 +4421,118 @@ fn scenario_fee_shift(work: &str, out: &mut Out, total: &mut BTreeMap<String, u6
 	merge_stats(&w, total);
 }
 
+/// The NRD feature flag OFF (`global::is_nrd_enabled()` false: the mainnet configuration - every
+/// other job runs with it on): `verify_kernel_variants` refuses any transaction with an NRD kernel
+/// (`NRDKernelNotEnabled`) whatever the header version, on both paths, in both input forms, alone
+/// or aggregated with a pooled transaction (after de-aggregation on the fluff path, as submitted on
+/// the stem path); everything else is admitted, mined and reconciled as before.  Then the flag is
+/// turned on and the same transactions are admitted (header version 4 is reached in the warm-up).
+fn scenario_nrd_disabled(work: &str, out: &mut Out, total: &mut BTreeMap<String, u64>) {
+	let mut rng = Rng::new(seed_from_env().wrapping_mul(41).wrapping_add(1207));
+	let mut w = World::new(work, "nrd-disabled", Cfg { max_pool: 50, max_stem: 50, mine_w: 250 });
+	let cfg_line = |w: &World, out: &mut Out, nrd: bool| {
+		out.raw(&format!(
+			"pool cfg max_pool={} max_stem={} mine_w={} fee_base={} max_tx_w={} max_block_w={} maturity={} nrd={}",
+			w.cfg.max_pool,
+			w.cfg.max_stem,
+			w.cfg.mine_w,
+			FEE_BASE,
+			global::max_tx_weight(),
+			global::max_block_weight(),
+			MATURITY,
+			if nrd { 1 } else { 0 }
+		));
+	};
+	out.raw("pool reset");
+	cfg_line(&w, out, false);
+	// the flag is thread-local here; it is restored before the job ends (worker threads are reused)
+	global::set_local_nrd_enabled(false);
+	struct Restore;
+	impl Drop for Restore {
+		fn drop(&mut self) {
+			global::set_local_nrd_enabled(true);
+		}
+	}
+	let _restore = Restore;
+	warm_up(&mut w, out, &mut rng, 11);
+	w.print_head(out);
+	w.obs(out, "start");
+	let ver = w.node.head_header().map(|h| h.version.0).unwrap_or(0);
+	out.raw(&format!("#STAT scenario:nrd-disabled:header-version-at-start={}", ver));
+	let mut nrd_txs: Vec<usize> = vec![];
+	for round in 0..3 {
+		let free = w.free_utxo();
+		if free.len() < 4 {
+			break;
+		}
+		let mk_nrd = |w: &mut World, rng: &mut Rng, o: usize| {
+			let fee = World::good_fee(rng, World::weight_of(1, 1));
+			let f = KernelFeatures::NoRecentDuplicate {
+				fee: FeeFields::new(0, fee).unwrap(),
+				relative_height: NRDRelativeHeight::new(rng.range(1, 3)).unwrap(),
+			};
+			w.spend(&[o], 1, fee, Some(f))
+		};
+		// an NRD transaction alone: fluff and stem, every source, both forms
+		if let Some(tx) = mk_nrd(&mut w, &mut rng, free[0]) {
+			let t = w.add_tx(out, tx, vec![], "nrd-disabled:nrd-kernel");
+			nrd_txs.push(t);
+			for (k, form) in [Form::V3, Form::V2].into_iter().enumerate() {
+				let r = w.submit_form(out, t, pick_src(&mut rng), false, true, form);
+				w.stat(&format!("nrd-disabled:alone:fluff:{}", r));
+				let r = w.submit_form(out, t, pick_src(&mut rng), true, k == 0, form);
+				w.stat(&format!("nrd-disabled:alone:stem:{}", r));
+			}
+		}
+		// a plain transaction is admitted as ever
+		let fee = World::good_fee(&mut rng, World::weight_of(1, 2));
+		let plain = w.spend(&[free[1]], 2, fee, None);
+		if let Some(p) = plain.clone() {
+			let t = w.add_tx(out, p, vec![], "nrd-disabled:plain");
+			let r = w.submit(out, t, TxSource::Broadcast, round == 1, round != 1);
+			w.stat(&format!("nrd-disabled:plain:{}", r));
+		}
+		// aggregate of the pooled plain transaction and a new NRD transaction: fluff (de-aggregated:
+		// the remainder is the NRD transaction) and stem (as submitted)
+		if let (Some(p), Some(n)) = (plain, mk_nrd(&mut w, &mut rng, free[2])) {
+			let pooled: Vec<Transaction> = if w.pool.txpool.entries.iter().any(|e| e.tx.kernels() == p.kernels()) { vec![p.clone()] } else { vec![] };
+			w.submit_aggregate(out, &pooled, &[n.clone()], "nrd-disabled:aggregate-with-nrd-part", TxSource::Broadcast, false, true);
+			w.submit_aggregate(out, &pooled, &[n.clone()], "nrd-disabled:aggregate-with-nrd-part", TxSource::PushApi, true, true);
+			let t = w.add_tx(out, n, vec![], "nrd-disabled:nrd-kernel");
+			nrd_txs.push(t);
+		}
+		// a height-locked kernel is not an NRD kernel
+		let nh = w.next_height();
+		let fee = World::good_fee(&mut rng, World::weight_of(1, 1));
+		let f = KernelFeatures::HeightLocked { fee: FeeFields::new(0, fee).unwrap(), lock_height: nh };
+		if let Some(tx) = w.spend(&[free[3]], 1, fee, Some(f)) {
+			let t = w.add_tx(out, tx, vec![], "nrd-disabled:height-locked");
+			let r = w.submit(out, t, TxSource::Broadcast, false, true);
+			w.stat(&format!("nrd-disabled:height-locked:{}", r));
+		}
+		// the next block from the mineable set
+		let txs = w.pool.prepare_mineable_transactions().unwrap_or_default();
+		let parent = w.head;
+		if let Some(id) = w.build_block(parent, 1, &txs).or_else(|| w.build_block(parent, 1, &[])) {
+			w.deliver(out, id);
+		}
+	}
+	// the flag on: the same NRD transactions are admitted (those whose input is still unspent)
+	global::set_local_nrd_enabled(true);
+	cfg_line(&w, out, true);
+	w.obs(out, "nrd feature flag turned on");
+	for (k, t) in nrd_txs.iter().enumerate() {
+		let r = w.submit(out, *t, TxSource::Broadcast, k % 2 == 1, true);
+		w.stat(&format!("nrd-disabled:flag-on-again:{}", r));
+	}
+	let txs = w.pool.prepare_mineable_transactions().unwrap_or_default();
+	let parent = w.head;
+	if let Some(id) = w.build_block(parent, 1, &txs) {
+		w.deliver(out, id);
+	}
+	merge_stats(&w, total);
+}
+
 fn run_history(
 	work: &str,
 	out: &mut Out,
@@ -4587,6 +4699,7 @@ fn main() {
 		jobs.push(("header-gap".into(), Box::new(|w, o, t| scenario_header_gap(w, o, t))));
 		jobs.push(("degenerate".into(), Box::new(|w, o, t| scenario_degenerate(w, o, t))));
 		jobs.push(("stempool-reconcile".into(), Box::new(|w, o, t| scenario_stempool_reconcile(w, o, t))));
+		jobs.push(("nrd-disabled".into(), Box::new(|w, o, t| scenario_nrd_disabled(w, o, t))));
 		for v in 0..4 {
 			jobs.push((format!("reorg-replay-stem-{}", v), Box::new(move |w, o, t| scenario_reorg_replay_stem(w, o, t, v))));
 		}
